@@ -167,7 +167,7 @@ class RecordReducer(Reducer, ABC):
 
     @duration.setter
     def duration(self, value: float) -> None:
-        value = argtest.gt("duration", value, 0, float)
+        value = argtest.gte("duration", value, 0, float)
         if value != self.__duration:
             for rec in self.__records:
                 getattr(self, rec).duration = value
